@@ -34,7 +34,7 @@ BinArgs == <<"v", "'s'", "1", "0", "1.5", "0.0", "true", "10s", "0s", "now()", "
 
 Dims == {"", "h", "*", "/re/", "time()", "time(0s)", "time(-1s)", "time(1s)", "time(1s, 0s)", "time(0s, 1s)", "time(1s, 1s, 1s)", "time(v)", "time('x')", "time(1s, now())", "time(0s, now())", "time(0s, now() - 90s)", "time(0s, '2000-01-01T00:00:00Z')", "time(7s, now() - 90s)", "time(1s, now() + 1s)",
          "time(1s, '2000-01-01T00:00:00Z')", "time(1s, 'x')", "time(1s, 1)", "time(1, 1s)", "time(1.5)", "time(10s / 0.5)", "foo(1)", "foo()", "1", "'x'", "time(1s), time(2s)",
-         "h, time(1s, -1s)", "time(1ns, 9223372036854775807ns)", "mean(v)", "h::tag, *", "time(1s), *", "v + 1", "(h)", "DISTINCT h", "-h", "true"}
+         "h, time(1s, -1s)", "time(1ns, 9223372036854775807ns)", "mean(v)", "h::tag, *", "time(1s), *", "*, time(1s)", "*, time(10s, 3s)", "/h/, time(1m, 10s)", "/nomatch/, time(1m)", "h, *, time(1m, now())", "*, time(1s), *", "/r|h/, /x/, time(1s, 1s)", "v + 1", "(h)", "DISTINCT h", "-h", "true"}
 
 Conds == {"", "time > now() - 1h", "time != 1", "time =~ /a/", "'x' =~ /a/", "1 =~ /a/", "h =~ /a/ AND h !~ /b/", "time > 1.5", "time > 'x'", "time > '2000-13-45'", "time < 1s OR time > 2s",
           "time = 9223372036854775807", "time > -9223372036854775808", "time < '3000-01-01T00:00:00Z'", "time > '1000-01-01T00:00:00Z'", "1 > time", "now() > time",
@@ -111,7 +111,10 @@ Gen == /\ ~done
           ELSE IF Part = "dictcalls"
           THEN \A w \in DictStrs : DictCalls(w)
           ELSE IF Part = "dims"
-          THEN \A d \in Dims : \A f \in {"v", "mean(v)", "top(v, 1), h", "*"} : \A tl \in Tails : Emit(Sel(f, "", d, tl), "dim")
+          THEN /\ \A d \in Dims : \A f \in {"v", "mean(v)", "top(v, 1), h", "*"} : \A tl \in Tails : Emit(Sel(f, "", d, tl), "dim")
+               \* the parser itself asks a continuous query's source for its interval
+               /\ \A d \in Dims : \A f \in {"mean(v)", "*", "mean(*)"} :
+                    Emit("CREATE CONTINUOUS QUERY cq ON db BEGIN SELECT " \o f \o " INTO t FROM m GROUP BY " \o d \o " END", "dim-cq")
           ELSE IF Part = "conds"
           THEN \A c \in Conds : \A f \in {"v", "mean(v)"} : \A d \in {"", "time(1m)", "time(0s, 1s)"} : Emit(Sel(f, c, d, ""), "cond")
           ELSE \A c \in Conds : \A d \in Dims : Emit(Sel("mean(v)", c, d, ""), "cross")
